@@ -248,7 +248,11 @@ def main():
         ]
         t = inline_consts(t)
         t = [rename_loop(x, 'pd') if (x[0] == 'rangefor' and x[2] == ('member', ('id', 'cls'), 'direct_derived', False)) else x for x in t]
-        if t != want_t:
+        # slots[...] = next_slot; ++next_slot;   is   slots[...] = next_slot++;
+        lhs_t = want_t[1][3][1][0][1][2]
+        split_t = list(want_t)
+        split_t[1] = ('rangefor', 'mp', want_t[1][2], ('block', [('expr', ('assign', '=', lhs_t, ('id', 'next_slot'))), ('expr', ('un', '++', ('id', 'next_slot')))]))
+        if t != want_t and t != split_t:
             raise mc.Unsupported('assign_tree_slots changed (expected: next = base; one slot per used_by_vp entry, counting up; first_slot = 0; vtbl.resize(next); recursion over direct_derived with next)')
 
         # ---- assign_slots
@@ -274,6 +278,15 @@ def main():
                 a = c[2]
                 return len(a) == 3 and a[0] == call0(cov, 'begin') and a[1] == call0(cov, 'end') and multi_pred(a[2], named)
             return False
+
+        def is_lattice_cond(c, named):
+            if c[0] == 'bin' and c[1] == '!=' and c[3] == call0(cov, 'end') and c[2][0] == 'call' and c[2][1] == ('id', 'std::find_if'):
+                a = c[2][2]
+                return len(a) == 3 and a[0] == call0(cov, 'begin') and a[1] == call0(cov, 'end') and multi_pred(a[2], named)
+            if c[0] == 'call' and c[1] == ('id', 'std::any_of'):
+                a = c[2]
+                return len(a) == 3 and a[0] == call0(cov, 'begin') and a[1] == call0(cov, 'end') and multi_pred(a[2], named)
+            return False
         named = {}
         flat2 = []
         for st in flat:
@@ -296,9 +309,11 @@ def main():
             if (len(rb) == 1 and rb[0][0] == 'if' and not rb[0][1] and rb[0][4] is None
                     and rb[0][2] in (('bin', '==', call0(('member', ('id', 'cls'), 'direct_bases', False), 'size'), ('num', 0)), call0(('member', ('id', 'cls'), 'direct_bases', False), 'empty'))):
                 ib = nonempty(rb[0][3][1])
-                roots_ok = (len(ib) == 1 and ib[0][0] == 'if' and not ib[0][1] and is_tree_cond(ib[0][2], named)
-                            and nonempty(ib[0][3][1]) == [('expr', ('call', ('id', 'assign_tree_slots'), [('id', 'cls'), ('num', 0)]))]
-                            and ib[0][4] is not None and nonempty(ib[0][4][1]) == [('expr', ('call', ('id', 'assign_lattice_slots'), [('id', 'cls')]))])
+                tree_call = [('expr', ('call', ('id', 'assign_tree_slots'), [('id', 'cls'), ('num', 0)]))]
+                lat_call = [('expr', ('call', ('id', 'assign_lattice_slots'), [('id', 'cls')]))]
+                roots_ok = (len(ib) == 1 and ib[0][0] == 'if' and not ib[0][1] and ib[0][4] is not None
+                            and ((is_tree_cond(ib[0][2], named) and nonempty(ib[0][3][1]) == tree_call and nonempty(ib[0][4][1]) == lat_call)
+                                 or (is_lattice_cond(ib[0][2], named) and nonempty(ib[0][3][1]) == lat_call and nonempty(ib[0][4][1]) == tree_call)))
         roots = flat[1] if roots_ok else None
         used = ('member', ('id', 'cls'), 'used_slots', False)
         mi = ('rangefor', 'cls', ('id', 'classes'),
